@@ -11,7 +11,8 @@
 From Coq Require Import ZArith Reals Lra Lia Bool List Psatz.
 From Flocq Require Import Core.
 From Dashu Require Import Base.Prelude Float.RoundSpec Float.RoundSpecProof Float.Contract Float.Model
-  Float.ModelProof Float.AddModel Float.ElemEncl Float.ElemEntryProof Float.ElemEnclProof Float.ElemF32 Float.ElemAsis.
+  Float.ModelProof Float.AddModel Float.ElemEncl Float.ElemEntryProof Float.ElemEnclProof Float.ElemF32 Float.ElemAsis
+  Float.ElemParamsProof.
 From DashuGen Require Import RoundTables ElemParams.
 Open Scope Z_scope.
 
@@ -25,7 +26,7 @@ Hypothesis HB : 2 <= B.
 Local Notation bp := (bpw B).
 
 Lemma IZR_Bpow k : 0 <= k -> IZR (B ^ k) = bp k.
-Proof. intros. symmetry. apply (bpw_nonneg_Z B HB). assumption. Qed.
+Proof. intros. symmetry. apply (bpw_nonneg_Z B). assumption. Qed.
 
 Lemma fval_mul s1 e1 s2 e2 : fval B (s1 * s2) (e1 + e2) = (fval B s1 e1 * fval B s2 e2)%R.
 Proof. rewrite !(fval_bpw B), mult_IZR, (bpw_add B HB). ring. Qed.
@@ -136,3 +137,871 @@ Proof.
 Qed.
 
 End Powi.
+
+(* ---------------------------------------------------------------- accumulated relative error *)
+Section RelErr.
+Variable u : R.
+Hypothesis u0 : (0 <= u)%R.
+Hypothesis u1 : (u <= 1)%R.
+
+(** v = t * theta with (1-u)^c <= theta <= (1+u)^c *)
+Definition RA (c : nat) (t v : R) : Prop :=
+  exists th : R, v = (t * th)%R /\ ((1 - u) ^ c <= th <= (1 + u) ^ c)%R.
+
+Lemma pow_1mu_nonneg c : (0 <= (1 - u) ^ c)%R.
+Proof. apply pow_le. lra. Qed.
+Lemma pow_1pu_ge1 c : (1 <= (1 + u) ^ c)%R.
+Proof. apply pow_R1_Rle. lra. Qed.
+Lemma pow_1mu_le1 c : ((1 - u) ^ c <= 1)%R.
+Proof. induction c; cbn [pow]; [lra|]. pose proof (pow_1mu_nonneg c). nra. Qed.
+
+Lemma RA_refl t : RA 0 t t.
+Proof. exists 1%R. cbn [pow]. split; [ring | lra]. Qed.
+
+Lemma RA_mul c1 c2 t1 t2 v1 v2 : RA c1 t1 v1 -> RA c2 t2 v2 -> RA (c1 + c2) (t1 * t2) (v1 * v2).
+Proof.
+  intros (a & -> & La & Ua) (b & -> & Lb & Ub). exists (a * b)%R. split; [ring|].
+  rewrite !pow_add. pose proof (pow_1mu_nonneg c1). pose proof (pow_1mu_nonneg c2).
+  pose proof (pow_1pu_ge1 c1). pose proof (pow_1pu_ge1 c2). split; nra.
+Qed.
+
+Lemma RA_step c t v th : RA c t v -> (Rabs (th - 1) <= u)%R -> RA (S c) t (v * th).
+Proof.
+  intros (a & -> & La & Ua) Hth. exists (a * th)%R. split; [ring|]. cbn [pow].
+  apply Rabs_le_inv in Hth. pose proof (pow_1mu_nonneg c). pose proof (pow_1pu_ge1 c). split; nra.
+Qed.
+
+Lemma RA_mono c c' t v : (c <= c')%nat -> RA c t v -> RA c' t v.
+Proof.
+  intros Hc (a & -> & La & Ua). exists a. split; [reflexivity|].
+  replace c' with (c + (c' - c))%nat by lia. rewrite !pow_add.
+  pose proof (pow_1mu_nonneg c). pose proof (pow_1mu_le1 (c' - c)). pose proof (pow_1mu_nonneg (c' - c)).
+  pose proof (pow_1pu_ge1 c). pose proof (pow_1pu_ge1 (c' - c)). split; nra.
+Qed.
+
+(** Bernoulli, both sides *)
+Lemma bernoulli_minus c : (1 - INR c * u <= (1 - u) ^ c)%R.
+Proof.
+  induction c; [cbn [pow INR]; lra|]. rewrite S_INR. cbn [pow].
+  pose proof (pos_INR c). nra.
+Qed.
+
+Lemma bernoulli_plus c : ((1 + u) ^ c * (1 - INR c * u) <= 1)%R.
+Proof.
+  destruct (Rle_lt_dec (1 - INR c * u) 0) as [N|P].
+  - pose proof (pow_1pu_ge1 c). nra.
+  - pose proof (bernoulli_minus c) as Bm.
+    assert (H : ((1 + u) ^ c * (1 - u) ^ c <= 1)%R).
+    { rewrite <- Rpow_mult_distr. replace ((1 + u) * (1 - u))%R with (1 - u * u)%R by ring.
+      clear - u0 u1. induction c; cbn [pow]; [lra|]. assert (0 <= (1 - u * u) ^ c)%R by (apply pow_le; nra). nra. }
+    pose proof (pow_1pu_ge1 c). nra.
+Qed.
+
+(** the distance of theta from 1 *)
+Lemma RA_dist c t v : (INR c * u < 1)%R -> RA c t v ->
+  (Rabs (v - t) * (1 - INR c * u) <= Rabs t * (INR c * u))%R.
+Proof.
+  intros Hc (a & -> & La & Ua).
+  replace (t * a - t)%R with (t * (a - 1))%R by ring. rewrite Rabs_mult.
+  pose proof (bernoulli_minus c). pose proof (bernoulli_plus c). pose proof (Rabs_pos t).
+  assert (Rabs (a - 1) * (1 - INR c * u) <= INR c * u)%R.
+  { pose proof (pos_INR c). unfold Rabs. destruct (Rcase_abs (a - 1)); nra. }
+  nra.
+Qed.
+
+End RelErr.
+
+(* ---------------------------------------------------------------- the powering loop *)
+Section Loop.
+Variable B : Z.
+Hypothesis HB : 2 <= B.
+Variable wp : Z.
+Hypothesis Hwp : 1 <= wp.
+Variable m : mode.
+
+Local Notation U := (IZR (2 * B ^ (wp - 1))).
+Local Notation u := (/ U)%R.
+
+Lemma U_ge2 : (2 <= U)%R.
+Proof. apply IZR_le. pose proof (Z.pow_pos_nonneg B (wp - 1)). lia. Qed.
+Lemma u_bounds : (0 <= u)%R /\ (u <= 1)%R.
+Proof.
+  pose proof U_ge2 as H. split.
+  - left. apply Rinv_0_lt_compat. lra.
+  - rewrite <- Rinv_1. apply Rinv_le_contravar; lra.
+Qed.
+Lemma rel_to_u th : (Rabs (th - 1) * U <= 1)%R -> (Rabs (th - 1) <= u)%R.
+Proof.
+  intros H. pose proof U_ge2. apply (Rmult_le_reg_r U); [lra|]. rewrite Rinv_l by lra. exact H.
+Qed.
+
+Lemma shrink_id k s e : 0 <= k -> dlen B s <= k * wp -> shrink B wp k m s e = (s, e).
+Proof.
+  intros Hk H. unfold shrink. destruct (wp =? 0); [reflexivity|].
+  destruct (Z.gtb_spec (dlen B s) (k * wp)); [lia | reflexivity].
+Qed.
+
+(** Context::mul on operands of at most 2 wp digits: one rounding of the exact product *)
+Lemma c_mul_facts s1 e1 s2 e2 : dlen B s1 <= 2 * wp -> dlen B s2 <= 2 * wp ->
+  dlen B (approx_sig (c_mul B wp m s1 e1 s2 e2)) <= wp + 1 /\
+  (is_exact (c_mul B wp m s1 e1 s2 e2) = true ->
+     aval B (c_mul B wp m s1 e1 s2 e2) = (fval B s1 e1 * fval B s2 e2)%R) /\
+  (is_half_mode m = true -> exists th : R,
+     aval B (c_mul B wp m s1 e1 s2 e2) = (fval B s1 e1 * fval B s2 e2 * th)%R /\ (Rabs (th - 1) <= u)%R).
+Proof.
+  intros H1 H2. unfold c_mul, ctx_mul. rewrite !shrink_id by lia.
+  pose proof (fval_normalize B HB (s1 * s2) (e1 + e2)) as Hn.
+  destruct (normalize B (s1 * s2) (e1 + e2)) as [s' e']. rewrite fval_mul in Hn by assumption.
+  split; [|split].
+  - eapply Z.le_trans; [apply dlen_nrm; assumption | apply repr_round_sig_dlen; assumption].
+  - rewrite is_exact_nrm, aval_nrm by assumption. intros Hx.
+    rewrite (repr_round_exact_inv B wp m s' e' Hx). exact Hn.
+  - intros Hm. destruct (repr_round_rel B HB wp m s' e' Hwp Hm) as (th & E & Hth).
+    exists th. rewrite aval_nrm, E, Hn by assumption. split; [reflexivity | apply rel_to_u; exact Hth].
+Qed.
+
+Lemma c_sqr_facts s e : dlen B s <= 2 * wp ->
+  dlen B (approx_sig (c_sqr B wp m s e)) <= wp + 1 /\
+  (is_exact (c_sqr B wp m s e) = true -> aval B (c_sqr B wp m s e) = (fval B s e * fval B s e)%R) /\
+  (is_half_mode m = true -> exists th : R,
+     aval B (c_sqr B wp m s e) = (fval B s e * fval B s e * th)%R /\ (Rabs (th - 1) <= u)%R).
+Proof.
+  intros H1. unfold c_sqr, ctx_sqr. rewrite !shrink_id by lia.
+  replace (2 * e) with (e + e) by lia.
+  pose proof (fval_normalize B HB (s * s) (e + e)) as Hn.
+  destruct (normalize B (s * s) (e + e)) as [s' e']. rewrite fval_mul in Hn by assumption.
+  split; [|split].
+  - eapply Z.le_trans; [apply dlen_nrm; assumption | apply repr_round_sig_dlen; assumption].
+  - rewrite is_exact_nrm, aval_nrm by assumption. intros Hx.
+    rewrite (repr_round_exact_inv B wp m s' e' Hx). exact Hn.
+  - intros Hm. destruct (repr_round_rel B HB wp m s' e' Hwp Hm) as (th & E & Hth).
+    exists th. rewrite aval_nrm, E, Hn by assumption. split; [reflexivity | apply rel_to_u; exact Hth].
+Qed.
+
+Variables s e : Z.
+Hypothesis Hs : dlen B s <= 2 * wp.
+Local Notation X := (fval B s e).
+
+(** the invariant: value, digit count, truthful Exact flag; the error bound in the nearest modes *)
+Definition Inv (j : Z) (res : approx) : Prop :=
+  dlen B (approx_sig res) <= 2 * wp /\
+  (is_exact res = true -> aval B res = (X ^ Z.to_nat j)%R) /\
+  (is_half_mode m = true -> RA u (Z.to_nat (2 * j - 3)) (X ^ Z.to_nat j) (aval B res)).
+
+Lemma Inv_init : Inv 2 (c_sqr B wp m s e).
+Proof.
+  destruct (c_sqr_facts s e Hs) as (D & Ex & Rel). split; [lia|]. split.
+  - intros H. rewrite (Ex H). change (Z.to_nat 2) with 2%nat. cbn [pow]. ring.
+  - intros Hm. destruct (Rel Hm) as (th & E & Hth). rewrite E.
+    change (Z.to_nat (2 * 2 - 3)) with 1%nat. change (Z.to_nat 2) with 2%nat.
+    destruct u_bounds as [u0 u1].
+    replace (X ^ 2)%R with (X * X)%R by (cbn [pow]; ring).
+    apply (RA_step u u0 u1 0). 2: exact Hth.
+    apply (RA_mul u u0 u1 0 0); apply RA_refl.
+Qed.
+
+Lemma Inv_sqr j res : 2 <= j -> Inv j res ->
+  Inv (2 * j) (approx_and_then res (fun s' e' => c_sqr B wp m s' e')).
+Proof.
+  intros Hj (D & Ex & Rel).
+  destruct (c_sqr_facts (approx_sig res) (approx_exp res) D) as (D' & Ex' & Rel').
+  assert (Hpow : (X ^ Z.to_nat (2 * j) = X ^ Z.to_nat j * X ^ Z.to_nat j)%R).
+  { replace (Z.to_nat (2 * j)) with (Z.to_nat j + Z.to_nat j)%nat by lia. apply pow_add. }
+  split; [rewrite sig_and_then; lia|]. split.
+  - rewrite exact_and_then, aval_and_then. intros H. apply andb_prop in H. destruct H as [H1 H2].
+    rewrite (Ex' H2). fold (aval B res). rewrite (Ex H1). symmetry. exact Hpow.
+  - intros Hm. rewrite aval_and_then. destruct (Rel' Hm) as (th & E & Hth). rewrite E. fold (aval B res).
+    rewrite Hpow. destruct u_bounds as [u0 u1].
+    apply (RA_mono u u0 u1 (S (Z.to_nat (2 * j - 3) + Z.to_nat (2 * j - 3)))); [lia|].
+    apply (RA_step u u0 u1). 2: exact Hth.
+    apply (RA_mul u u0 u1); apply Rel; exact Hm.
+Qed.
+
+Lemma Inv_mul j res : 2 <= j -> Inv j res ->
+  Inv (j + 1) (approx_and_then res (fun s' e' => c_mul B wp m s' e' s e)).
+Proof.
+  intros Hj (D & Ex & Rel).
+  destruct (c_mul_facts (approx_sig res) (approx_exp res) s e D Hs) as (D' & Ex' & Rel').
+  assert (Hpow : (X ^ Z.to_nat (j + 1) = X ^ Z.to_nat j * X)%R).
+  { replace (Z.to_nat (j + 1)) with (Z.to_nat j + 1)%nat by lia. rewrite pow_add. cbn [pow]. ring. }
+  split; [rewrite sig_and_then; lia|]. split.
+  - rewrite exact_and_then, aval_and_then. intros H. apply andb_prop in H. destruct H as [H1 H2].
+    rewrite (Ex' H2). fold (aval B res). rewrite (Ex H1). symmetry. exact Hpow.
+  - intros Hm. rewrite aval_and_then. destruct (Rel' Hm) as (th & E & Hth). rewrite E. fold (aval B res).
+    rewrite Hpow. destruct u_bounds as [u0 u1].
+    apply (RA_mono u u0 u1 (S (Z.to_nat (2 * j - 3) + 0))); [lia|].
+    apply (RA_step u u0 u1). 2: exact Hth.
+    apply (RA_mul u u0 u1); [apply Rel; exact Hm | apply RA_refl].
+Qed.
+
+Variable n : Z.
+
+Lemma shiftr_step k : 0 <= k -> Z.shiftr n k = 2 * Z.shiftr n (k + 1) + Z.b2z (Z.testbit n k).
+Proof.
+  intros Hk. rewrite (Z.div2_odd (Z.shiftr n k)) at 1.
+  rewrite Z.div2_spec, Z.shiftr_shiftr by lia.
+  rewrite <- Z.bit0_odd, Z.shiftr_spec by lia. rewrite Z.add_0_l. reflexivity.
+Qed.
+
+Lemma powi_loop_inv k : forall res,
+  2 <= 2 * Z.shiftr n (Z.of_nat k + 1) ->
+  Inv (2 * Z.shiftr n (Z.of_nat k + 1)) res ->
+  Inv n (powi_loop B wp m s e n k res).
+Proof.
+  induction k as [|k IH]; intros res Hj HI.
+  - cbn [powi_loop]. pose proof (shiftr_step 0 ltac:(lia)) as E. rewrite Z.shiftr_0_r in E.
+    change (Z.of_nat 0) with 0 in *. destruct (Z.testbit n 0); cbn [Z.b2z] in E.
+    + rewrite E. apply Inv_mul; assumption.
+    + rewrite E, Z.add_0_r. exact HI.
+  - cbn [powi_loop]. pose proof (shiftr_step (Z.of_nat (S k)) ltac:(lia)) as E.
+    replace (Z.of_nat k + 1) with (Z.of_nat (S k)) in IH by lia.
+    apply IH.
+    + rewrite E. destruct (Z.testbit n (Z.of_nat (S k))); cbn [Z.b2z]; lia.
+    + rewrite E. destruct (Z.testbit n (Z.of_nat (S k))); cbn [Z.b2z].
+      * apply Inv_sqr; [lia|]. apply Inv_mul; assumption.
+      * rewrite Z.add_0_r. apply Inv_sqr; [lia | exact HI].
+Qed.
+
+Hypothesis Hn : 2 <= n.
+
+Lemma shiftr_top : Z.shiftr n (Z.log2 n) = 1.
+Proof.
+  rewrite Z.shiftr_div_pow2 by apply Z.log2_nonneg.
+  pose proof (Z.log2_spec n ltac:(lia)) as [L Up]. rewrite Z.pow_succ_r in Up by apply Z.log2_nonneg.
+  symmetry. apply (Z.div_unique n (2 ^ Z.log2 n) 1 (n - 2 ^ Z.log2 n)); lia.
+Qed.
+
+(** the working-precision result of the loop of powi: x^n up to (1 +- u)^(2n-3) *)
+Theorem powi_loop_result :
+  Inv n (powi_loop B wp m s e n (Z.to_nat (bit_len n - 2)) (c_sqr B wp m s e)).
+Proof.
+  assert (Hl : 1 <= Z.log2 n) by (apply Z.log2_le_pow2; lia).
+  assert (Hk : Z.of_nat (Z.to_nat (bit_len n - 2)) + 1 = Z.log2 n).
+  { unfold bit_len. destruct (Z.eqb_spec n 0); [lia|]. rewrite Z.abs_eq by lia. lia. }
+  apply powi_loop_inv; rewrite Hk, shiftr_top; [lia | exact Inv_init].
+Qed.
+
+End Loop.
+
+(* ---------------------------------------------------------------- the final rounding *)
+Section Final.
+Variable B : Z.
+Hypothesis HB : 2 <= B.
+Local Notation bp := (bpw B).
+
+Lemma bpw_le a b : a <= b -> (bp a <= bp b)%R.
+Proof. intros H. rewrite !(bpw_bpow B HB). apply bpow_le. exact H. Qed.
+Lemma bpw_lt a b : a < b -> (bp a < bp b)%R.
+Proof. intros H. rewrite !(bpw_bpow B HB). apply bpow_lt. exact H. Qed.
+
+(** a nearest-mode rounding is at least as close as any other multiple of the unit *)
+Lemma nearest_multiple m N d q : 0 < d -> is_half_mode m = true ->
+  Z.abs (spec_round m N d * d - N) <= Z.abs (q * d - N).
+Proof.
+  intros Hd Hm. destruct (spec_round_error m N d Hd) as [_ H]. specialize (H Hm). cbv zeta in H.
+  set (r := spec_round m N d) in *. destruct (Z.eq_dec q r) as [->|Hne]; [lia|].
+  assert (d <= Z.abs (q * d - r * d)).
+  { replace (q * d - r * d) with ((q - r) * d) by ring. rewrite Z.abs_mul, (Z.abs_eq d) by lia.
+    assert (1 <= Z.abs (q - r)) by lia. nia. }
+  lia.
+Qed.
+
+(** rounding the working-precision value v to p digits, when v is within half an ulp (of the true
+    value t, at precision p) of t: the result is within one ulp of t *)
+Lemma final_round p m sv ev t E : 1 <= p -> is_half_mode m = true ->
+  (bp E <= Rabs t)%R -> (Rabs t < bp (E + 1))%R ->
+  (Rabs (fval B sv ev - t) < bp (E - p + 1) / 2)%R ->
+  (Rabs (aval B (c_repr_round B p m sv ev) - t) < bp (E - p + 1))%R.
+Proof.
+  intros Hp Hm HtL HtU Hv. unfold c_repr_round. rewrite aval_nrm by assumption.
+  set (v := fval B sv ev) in *. set (ulp := bp (E - p + 1)) in *.
+  destruct (Z_lt_le_dec p (dlen B sv)) as [C|C].
+  2:{ rewrite repr_round_exact by assumption. unfold aval. cbn [approx_sig approx_exp]. fold v.
+      assert (0 < ulp)%R by apply (bpw_pos B HB). lra. }
+  destruct (repr_round_spec B HB p m sv ev Hp C) as (a & E1 & _).
+  set (k := dlen B sv - p) in *. rewrite E1. unfold aval. cbn [approx_sig approx_exp].
+  set (r := spec_round m sv (B ^ k)).
+  assert (Hk : 0 <= k) by (unfold k; lia).
+  assert (Hpk : 0 < B ^ k) by (apply Z.pow_pos_nonneg; lia).
+  assert (Hsv : sv <> 0) by (intros ->; rewrite dlen_zero in C; lia).
+  destruct (dlen_spec B HB sv Hsv) as [[L Up] G]. set (d := dlen B sv) in *.
+  destruct (spec_round_error m sv (B ^ k) Hpk) as [_ Hh]. specialize (Hh Hm). cbv zeta in Hh. fold r in Hh.
+  (* the power of B below |sv| is a multiple of the unit *)
+  assert (Hq : Z.abs (r * B ^ k - sv) <= Z.abs sv - B ^ (d - 1)).
+  { pose proof (nearest_multiple m sv (B ^ k) (Z.sgn sv * B ^ (p - 1)) Hpk Hm) as Hn. fold r in Hn.
+    assert (Ed : B ^ (d - 1) = B ^ (p - 1) * B ^ k).
+    { replace (d - 1) with ((p - 1) + k) by (unfold k; lia). apply Z.pow_add_r; lia. }
+    replace (Z.sgn sv * B ^ (p - 1) * B ^ k - sv) with (Z.sgn sv * B ^ (d - 1) - sv) in Hn by (rewrite Ed; ring).
+    assert (0 < B ^ (d - 1)) by (apply Z.pow_pos_nonneg; lia).
+    destruct (Z.lt_trichotomy sv 0) as [N|[N|N]]; [|lia|].
+    - rewrite (Z.sgn_neg sv N) in Hn. lia.
+    - rewrite (Z.sgn_pos sv N) in Hn. lia. }
+  set (D := Z.abs (r * B ^ k - sv)) in *.
+  (* real side *)
+  assert (Hbe : (0 < bp ev)%R) by apply (bpw_pos B HB).
+  assert (Hdist : (Rabs (fval B r (ev + k) - v) = IZR D * bp ev)%R).
+  { unfold v. rewrite <- fval_shift by assumption. rewrite !(fval_bpw B).
+    replace (IZR (r * B ^ k) * bp ev - IZR sv * bp ev)%R with (IZR (r * B ^ k - sv) * bp ev)%R by (rewrite minus_IZR; ring).
+    rewrite Rabs_mult, (Rabs_pos_eq (bp ev)) by lra. unfold D. rewrite abs_IZR. reflexivity. }
+  assert (Habsv : (Rabs v = IZR (Z.abs sv) * bp ev)%R).
+  { unfold v. rewrite (fval_bpw B), Rabs_mult, (Rabs_pos_eq (bp ev)) by lra. rewrite abs_IZR. reflexivity. }
+  assert (Hunit : (IZR (B ^ k) * bp ev = bp (ev + k))%R).
+  { rewrite (IZR_Bpow B k Hk), (bpw_add B HB). ring. }
+  assert (HEv : (IZR (B ^ (d - 1)) * bp ev = bp (ev + k + p - 1))%R).
+  { rewrite (IZR_Bpow B (d - 1)) by lia. rewrite <- (bpw_add B HB). f_equal. unfold k. lia. }
+  assert (Htri : (Rabs (fval B r (ev + k) - t) <= Rabs (fval B r (ev + k) - v) + Rabs (v - t))%R).
+  { replace (fval B r (ev + k) - t)%R with ((fval B r (ev + k) - v) + (v - t))%R by ring. apply Rabs_triang. }
+  destruct (Z_le_gt_dec (ev + k) (E - p + 1)) as [Cs|Cb].
+  - (* the unit of v is at most the ulp of t *)
+    assert (bp (ev + k) <= ulp)%R by (apply bpw_le; assumption).
+    assert (2 * (IZR D * bp ev) <= bp (ev + k))%R.
+    { rewrite <- Hunit. apply IZR_le in Hh. rewrite mult_IZR in Hh. nra. }
+    lra.
+  - (* v lies in a higher binade than t: the power of B between them is representable *)
+    assert (bp (E + 1) <= bp (ev + k + p - 1))%R by (apply bpw_le; lia).
+    assert (IZR D * bp ev <= Rabs v - bp (ev + k + p - 1))%R.
+    { rewrite Habsv, <- HEv. apply IZR_le in Hq. rewrite minus_IZR in Hq. nra. }
+    assert (Rabs v - Rabs t <= Rabs (v - t))%R by apply Rabs_triang_inv.
+    lra.
+Qed.
+
+End Final.
+
+(* ---------------------------------------------------------------- the theorems *)
+Section Main.
+Variable B : Z.
+Hypothesis HB : 2 <= B.
+Local Notation bp := (bpw B).
+
+(** what the guard digits have to provide: (2n-3) roundings at the working precision stay below
+    half an ulp at the target precision *)
+Definition guard_condition (p n wp : Z) : Prop := (2 * n - 3) * (2 * B ^ p + 1) <= 2 * B ^ (wp - 1).
+
+Lemma with_precision_round wp p m s e : p < wp -> with_precision B wp p m s e = c_repr_round B p m s e.
+Proof.
+  intros H. unfold with_precision. destruct (wp =? 0); [reflexivity|].
+  destruct (Z.gtb_spec wp p); [reflexivity | lia].
+Qed.
+
+Lemma c_repr_round_exact_val p m s e :
+  is_exact (c_repr_round B p m s e) = true -> aval B (c_repr_round B p m s e) = fval B s e.
+Proof.
+  unfold c_repr_round. rewrite is_exact_nrm, aval_nrm by assumption. intros H.
+  rewrite (repr_round_exact_inv B p m s e H). reflexivity.
+Qed.
+
+Lemma pow_Z_powerRZ x n : 0 <= n -> (x ^ Z.to_nat n)%R = powerRZ x n.
+Proof. intros Hn. rewrite <- (Z2Nat.id n Hn) at 2. apply pow_powerRZ. Qed.
+
+(** EVERY mode: a result of powi flagged Exact is x^n exactly *)
+Theorem powi_pos_exact_flag p m s e n : 1 <= p -> 0 <= n ->
+  dlen B s <= 2 * powi_work_precision p n ->
+  is_exact (powi_pos B p m s e n) = true ->
+  aval B (powi_pos B p m s e n) = powerRZ (fval B s e) n.
+Proof.
+  intros Hp Hn Hs. unfold powi_pos.
+  destruct (Z.eqb_spec n 0) as [->|N0].
+  { intros _. unfold aval. cbn [approx_sig approx_exp powerRZ]. apply fval_1_0. }
+  destruct (Z.eqb_spec n 1) as [->|N1].
+  { intros H. rewrite (c_repr_round_exact_val _ _ _ _ H). rewrite powerRZ_1. reflexivity. }
+  set (wp := powi_work_precision p n) in *.
+  assert (Hwp : 1 <= wp).
+  { unfold wp, powi_work_precision. destruct (Z.eqb_spec p 0); [lia|]. unfold powi_guard_digits_gen, bit_len.
+    destruct (n =? 0); destruct (p =? 0); pose proof (Z.log2_nonneg (Z.abs n)); pose proof (Z.log2_nonneg (Z.abs p)); lia. }
+  pose proof (powi_loop_result B HB wp Hwp m s e Hs n ltac:(lia)) as (D & Ex & _).
+  set (res := powi_loop B wp m s e n (Z.to_nat (bit_len n - 2)) (c_sqr B wp m s e)) in *.
+  rewrite exact_and_then, aval_and_then. intros H. apply andb_prop in H. destruct H as [H1 H2].
+  unfold with_precision in *. destruct ((wp =? 0) || (wp >? p)).
+  - rewrite (c_repr_round_exact_val _ _ _ _ H2). fold (aval B res). rewrite (Ex H1). apply pow_Z_powerRZ. lia.
+  - unfold aval at 1. cbn [approx_sig approx_exp]. fold (aval B res). rewrite (Ex H1). apply pow_Z_powerRZ. lia.
+Qed.
+
+(** the two NEAREST modes: under the guard condition powi is within one ulp of x^n (in the binade of
+    the true value) and flags Exact only an exact result - the acceptance criterion of the property *)
+Theorem powi_pos_nearest p m s e n : 1 <= p -> 2 <= n -> s <> 0 -> is_half_mode m = true ->
+  let wp := powi_work_precision p n in
+  p < wp -> dlen B s <= 2 * wp -> guard_condition p n wp ->
+  Accepted B p (powerRZ (fval B s e) n) (aval B (powi_pos B p m s e n)) (is_exact (powi_pos B p m s e n)).
+Proof.
+  intros Hp Hn Hs0 Hm wp Hpw Hs GC. split.
+  2:{ intros H. apply powi_pos_exact_flag; try assumption; lia. }
+  right. unfold powi_pos.
+  destruct (Z.eqb_spec n 0) as [->|N0]; [lia|]. destruct (Z.eqb_spec n 1) as [->|N1]; [lia|]. fold wp.
+  assert (Hwp : 1 <= wp) by lia.
+  pose proof (powi_loop_result B HB wp Hwp m s e Hs n Hn) as (D & _ & Rel). specialize (Rel Hm).
+  set (res := powi_loop B wp m s e n (Z.to_nat (bit_len n - 2)) (c_sqr B wp m s e)) in *.
+  rewrite aval_and_then, with_precision_round by assumption.
+  rewrite <- pow_Z_powerRZ by lia. set (t := (fval B s e ^ Z.to_nat n)%R) in *.
+  assert (Ht : t <> 0%R) by (apply pow_nonzero, (fval_neq0 B HB); assumption).
+  set (E := mag (rdx B HB) t - 1).
+  assert (HtL : (bp E <= Rabs t)%R).
+  { rewrite (bpw_bpow B HB). unfold E. apply bpow_mag_le. exact Ht. }
+  assert (HtU : (Rabs t < bp (E + 1))%R).
+  { rewrite (bpw_bpow B HB). unfold E. replace (mag (rdx B HB) t - 1 + 1) with (mag (rdx B HB) t : Z) by lia. apply bpow_mag_gt. }
+  exists E. split; [exact HtL|].
+  apply final_round; try assumption.
+  (* the accumulated error is below half an ulp *)
+  fold (aval B res). set (v := aval B res) in *.
+  set (c := Z.to_nat (2 * n - 3)) in *. set (U := IZR (2 * B ^ (wp - 1))) in *.
+  assert (HU : (2 <= U)%R) by apply (U_ge2 B HB wp Hwp).
+  assert (Hc : INR c = IZR (2 * n - 3)).
+  { unfold c. rewrite INR_IZR_INZ, Z2Nat.id by lia. reflexivity. }
+  assert (Hc1 : (1 <= INR c)%R) by (rewrite Hc; apply IZR_le; lia).
+  assert (HBp : (1 <= IZR (B ^ p))%R) by (apply IZR_le; pose proof (Z.pow_pos_nonneg B p); lia).
+  assert (HGC : (INR c * (2 * IZR (B ^ p) + 1) <= U)%R).
+  { rewrite Hc. unfold U. rewrite <- (mult_IZR 2 (B ^ p)), <- (plus_IZR _ 1), <- mult_IZR. apply IZR_le. exact GC. }
+  destruct (u_bounds B HB wp Hwp) as [u0 u1]. fold U in u0, u1.
+  assert (Hcu : (INR c * / U < 1)%R).
+  { apply (Rmult_lt_reg_r U); [lra|]. rewrite Rmult_assoc, Rinv_l by lra. nra. }
+  pose proof (RA_dist (/ U) u0 u1 c t v Hcu Rel) as Hd.
+  (* multiply through by U *)
+  assert (Hd' : (Rabs (v - t) * (U - INR c) <= Rabs t * INR c)%R).
+  { assert (Rabs (v - t) * (1 - INR c * / U) * U <= Rabs t * (INR c * / U) * U)%R by (apply Rmult_le_compat_r; lra).
+    replace (Rabs (v - t) * (1 - INR c * / U) * U)%R with (Rabs (v - t) * (U - INR c))%R in H by (field; lra).
+    replace (Rabs t * (INR c * / U) * U)%R with (Rabs t * INR c)%R in H by (field; lra). exact H. }
+  assert (Hulp : (bp (E + 1) = bp (E - p + 1) * IZR (B ^ p))%R).
+  { rewrite (IZR_Bpow B p) by lia. rewrite <- (bpw_add B HB). f_equal. lia. }
+  set (ulp := bp (E - p + 1)) in *. assert (0 < ulp)%R by apply (bpw_pos B HB).
+  pose proof (Rabs_pos (v - t)) as Hv0.
+  assert (H1 : (Rabs (v - t) * (2 * INR c * IZR (B ^ p)) <= Rabs (v - t) * (U - INR c))%R) by (apply Rmult_le_compat_l; nra).
+  assert (H2 : (Rabs t * INR c < ulp * IZR (B ^ p) * INR c)%R) by (apply Rmult_lt_compat_r; lra).
+  assert (H3 : (Rabs (v - t) * 2 * (INR c * IZR (B ^ p)) < ulp * (INR c * IZR (B ^ p)))%R) by nra.
+  assert (0 < INR c * IZR (B ^ p))%R by nra.
+  apply (Rmult_lt_reg_r (2 * (INR c * IZR (B ^ p)))); [nra|]. nra.
+Qed.
+
+(* ---- the guard digits of the source satisfy the guard condition *)
+Lemma pow23 L : (2 <= L)%nat -> 6 * 2 ^ Z.of_nat L - 15 <= 2 * 3 ^ Z.of_nat L.
+Proof.
+  induction L as [|L IH]; [lia|]. intros H.
+  destruct (Nat.eq_dec L 1) as [->|N]; [vm_compute; discriminate|].
+  specialize (IH ltac:(lia)). rewrite Nat2Z.inj_succ, !Z.pow_succ_r by lia.
+  assert (9 <= 3 ^ Z.of_nat L).
+  { change 9 with (3 ^ 2). apply Z.pow_le_mono_r; lia. }
+  lia.
+Qed.
+
+Lemma bit_len_bounds x : 1 <= x -> 1 <= bit_len x /\ x < 2 ^ bit_len x /\ 2 ^ (bit_len x - 1) <= x.
+Proof.
+  intros H. unfold bit_len. destruct (Z.eqb_spec x 0); [lia|]. rewrite Z.abs_eq by lia.
+  pose proof (Z.log2_nonneg x). pose proof (Z.log2_spec x ltac:(lia)) as [L U].
+  replace (Z.succ (Z.log2 x)) with (Z.log2 x + 1) in U by lia.
+  replace (Z.log2 x + 1 - 1) with (Z.log2 x) by lia. lia.
+Qed.
+
+(** exp.rs: guard_digits = exp.bit_len() + self.precision.bit_len() (regenerated): enough for every
+    base >= 3 at every precision, and for base 2 from 4 digits on *)
+Theorem powi_guard_condition p n : 1 <= p -> 2 <= n -> 3 <= B \/ 4 <= p ->
+  guard_condition p n (powi_work_precision p n).
+Proof.
+  intros Hp Hn Hcase. unfold guard_condition, powi_work_precision, powi_guard_digits_gen.
+  destruct (Z.eqb_spec p 0); [lia|].
+  destruct (bit_len_bounds n ltac:(lia)) as (Ln1 & Un & Lown). destruct (bit_len_bounds p Hp) as (Lp1 & Up & Lowp).
+  set (L := bit_len n) in *. set (Lp := bit_len p) in *.
+  assert (L2 : 2 <= L).
+  { destruct (Z_lt_le_dec L 2); [|assumption]. exfalso. assert (L = 1) by lia. rewrite H in Un. simpl in Un. lia. }
+  replace (p + (L + Lp) - 1) with ((p - 1) + L + Lp) by lia.
+  rewrite !Z.pow_add_r by lia.
+  assert (Hpp : 0 < B ^ (p - 1)) by (apply Z.pow_pos_nonneg; lia).
+  assert (HBp : B ^ p = B * B ^ (p - 1)).
+  { replace p with (1 + (p - 1)) at 1 by lia. rewrite Z.pow_add_r, Z.pow_1_r by lia. reflexivity. }
+  assert (H2L : 2 ^ L <= B ^ L) by (apply Z.pow_le_mono_l; lia).
+  assert (HBLp : B <= B ^ Lp).
+  { rewrite <- (Z.pow_1_r B) at 1. apply Z.pow_le_mono_r; lia. }
+  assert (H1 : 2 * B ^ p + 1 <= 3 * B ^ p) by (rewrite HBp; nia).
+  assert (Hn3 : 0 <= 2 * n - 3) by lia.
+  destruct Hcase as [HB3|Hp4].
+  - (* B >= 3: 3 (2n - 3) <= 2 * 3^L <= 2 B^L *)
+    assert (H3L : 3 ^ L <= B ^ L) by (apply Z.pow_le_mono_l; lia).
+    pose proof (pow23 (Z.to_nat L) ltac:(lia)) as P. rewrite Z2Nat.id in P by lia.
+    assert (Hk : 3 * (2 * n - 3) <= 2 * B ^ L) by lia.
+    (* LHS <= (2n-3) * 3 B^p = 3(2n-3) * B * B^(p-1) <= 2 B^L * B^Lp * B^(p-1) *)
+    assert (A1 : (2 * n - 3) * (2 * B ^ p + 1) <= (2 * n - 3) * (3 * B ^ p)) by (apply Z.mul_le_mono_nonneg_l; lia).
+    assert (A2 : (2 * n - 3) * (3 * B ^ p) = 3 * (2 * n - 3) * B * B ^ (p - 1)) by (rewrite HBp; ring).
+    assert (A3 : 3 * (2 * n - 3) * B <= 2 * B ^ L * B ^ Lp).
+    { assert (0 <= 2 * B ^ L) by lia. clear - Hk HBLp H HB Hn3. nia. }
+    assert (A4 : 3 * (2 * n - 3) * B * B ^ (p - 1) <= 2 * B ^ L * B ^ Lp * B ^ (p - 1)) by (apply Z.mul_le_mono_nonneg_r; lia).
+    lia.
+  - (* p >= 4: bit_len p >= 3 *)
+    assert (Lp3 : 3 <= Lp).
+    { destruct (Z_lt_le_dec Lp 3); [|assumption]. exfalso.
+      assert (2 ^ Lp <= 2 ^ 2) by (apply Z.pow_le_mono_r; lia). simpl in H. lia. }
+    assert (HB3 : B * 4 <= B ^ Lp).
+    { replace Lp with (1 + 2 + (Lp - 3)) by lia. rewrite !Z.pow_add_r, Z.pow_1_r by lia.
+      assert (4 <= B ^ 2) by (change 4 with (2 ^ 2); apply Z.pow_le_mono_l; lia).
+      assert (1 <= B ^ (Lp - 3)) by (pose proof (Z.pow_pos_nonneg B (Lp - 3)); lia).
+      assert (B * 4 <= B * B ^ 2) by (apply Z.mul_le_mono_nonneg_l; lia).
+      assert (0 <= B * B ^ 2) by lia.
+      assert (B * B ^ 2 * 1 <= B * B ^ 2 * B ^ (Lp - 3)) by (apply Z.mul_le_mono_nonneg_l; lia). lia. }
+    assert (A1 : (2 * n - 3) * (2 * B ^ p + 1) <= (2 * n - 3) * (3 * B ^ p)) by (apply Z.mul_le_mono_nonneg_l; lia).
+    assert (A2 : (2 * n - 3) * (3 * B ^ p) = 3 * (2 * n - 3) * B * B ^ (p - 1)) by (rewrite HBp; ring).
+    assert (A3 : 3 * (2 * n - 3) * B <= 2 * B ^ L * B ^ Lp).
+    { assert (Hx : 3 * (2 * n - 3) <= 8 * B ^ L) by lia. clear - Hx HB3 HB Hn3 H2L. nia. }
+    assert (A4 : 3 * (2 * n - 3) * B * B ^ (p - 1) <= 2 * B ^ L * B ^ Lp * B ^ (p - 1)) by (apply Z.mul_le_mono_nonneg_r; lia).
+    lia.
+Qed.
+
+Lemma powi_work_precision_gt p n : 1 <= p -> 2 <= n -> p < powi_work_precision p n.
+Proof.
+  intros Hp Hn. unfold powi_work_precision, powi_guard_digits_gen. destruct (Z.eqb_spec p 0); [lia|].
+  destruct (bit_len_bounds n ltac:(lia)) as (L1 & _). destruct (bit_len_bounds p Hp) as (L2 & _). lia.
+Qed.
+
+(** Context::powi with a non-negative exponent, nearest modes, B >= 3 or p >= 4, an operand of at
+    most 2 wp digits (every operand that fits the context precision does): within one ulp, Exact
+    only if exact *)
+Theorem powi_asis_nearest p m s e n : 1 <= p -> 2 <= n -> s <> 0 -> is_half_mode m = true ->
+  3 <= B \/ 4 <= p -> dlen B s <= 2 * powi_work_precision p n ->
+  exists a, powi_asis B p m s e n = Ok a /\
+    Accepted B p (powerRZ (fval B s e) n) (aval B a) (is_exact a).
+Proof.
+  intros Hp Hn Hs Hm Hc Hd. unfold powi_asis. destruct (Z.ltb_spec n 0); [lia|].
+  eexists. split; [reflexivity|].
+  apply powi_pos_nearest; try assumption.
+  - apply powi_work_precision_gt; assumption.
+  - apply powi_guard_condition; assumption.
+Qed.
+
+End Main.
+
+(* ================================================================ negative exponents *)
+(** v = t * theta with |theta - 1| <= d *)
+Definition RD (d t v : R) : Prop := exists th : R, v = (t * th)%R /\ (Rabs (th - 1) <= d)%R.
+
+Lemma RD_weaken d d' t v : (d <= d')%R -> RD d t v -> RD d' t v.
+Proof. intros H (th & E & Hth). exists th. split; [exact E | lra]. Qed.
+
+Lemma RA_to_RD u c t v : (0 <= u)%R -> (u <= 1)%R -> (INR c * u < 1)%R -> RA u c t v ->
+  RD (INR c * u / (1 - INR c * u)) t v.
+Proof.
+  intros u0 u1 Hc (th & E & L & Up). exists th. split; [exact E|].
+  pose proof (bernoulli_minus u u1 c) as Bm. pose proof (bernoulli_plus u u0 u1 c) as Bp.
+  pose proof (pos_INR c) as Hc0. set (y := (INR c * u)%R) in *.
+  assert (Hy : (0 <= y)%R) by (unfold y; nra).
+  assert (Hd : (y <= y / (1 - y))%R).
+  { apply (Rmult_le_reg_r (1 - y)); [lra|]. unfold Rdiv. rewrite Rmult_assoc, Rinv_l by lra. nra. }
+  assert (Hup : (th - 1 <= y / (1 - y))%R).
+  { apply (Rmult_le_reg_r (1 - y)); [lra|]. unfold Rdiv. rewrite Rmult_assoc, Rinv_l by lra.
+    assert (1 <= (1 + u) ^ c)%R by (apply pow_R1_Rle; lra). nra. }
+  apply Rabs_le. lra.
+Qed.
+
+Lemma RD_step d t v th u' : (0 <= d)%R -> RD d t v -> (Rabs (th - 1) <= u')%R -> RD (d + u' + d * u') t (v * th).
+Proof.
+  intros Hd (a & -> & Ha) Hth. exists (a * th)%R. split; [ring|].
+  replace (a * th - 1)%R with ((a - 1) * (th - 1) + (a - 1) + (th - 1))%R by ring.
+  eapply Rle_trans; [apply Rabs_triang|]. eapply Rle_trans; [apply Rplus_le_compat_r, Rabs_triang|].
+  rewrite Rabs_mult. pose proof (Rabs_pos (a - 1)). pose proof (Rabs_pos (th - 1)). nra.
+Qed.
+
+Lemma RD_inv d t v : (0 <= d)%R -> (d < 1)%R -> t <> 0%R -> RD d t v -> RD (d / (1 - d)) (/ t) (/ v).
+Proof.
+  intros Hd0 Hd1 Ht (a & -> & Ha). apply Rabs_le_inv in Ha.
+  assert (Ha0 : (0 < a)%R) by lra.
+  exists (/ a)%R. split; [field; split; lra|].
+  replace (/ a - 1)%R with ((1 - a) / a)%R by (field; lra).
+  unfold Rdiv. rewrite Rabs_mult, Rabs_inv, (Rabs_pos_eq a) by lra.
+  apply (Rmult_le_reg_r a); [lra|]. rewrite Rmult_assoc, Rinv_l by lra.
+  apply (Rmult_le_reg_r (1 - d)); [lra|].
+  replace (d * / (1 - d) * a * (1 - d))%R with (d * a)%R by (field; lra).
+  assert (Rabs (1 - a) <= d)%R by (apply Rabs_le; lra). pose proof (Rabs_pos (1 - a)). nra.
+Qed.
+
+Section Neg.
+Variable B : Z.
+Hypothesis HB : 2 <= B.
+Local Notation bp := (bpw B).
+
+(** the last rounding, from a relative error d with 2 d B^p <= 1 *)
+Lemma RD_final p m sv ev t d : 1 <= p -> is_half_mode m = true -> t <> 0%R -> (0 <= d)%R ->
+  (2 * d * IZR (B ^ p) <= 1)%R -> RD d t (fval B sv ev) ->
+  exists E, (bp E <= Rabs t)%R /\ (Rabs (aval B (c_repr_round B p m sv ev) - t) < bp (E - p + 1))%R.
+Proof.
+  intros Hp Hm Ht Hd0 Hd (th & Ev & Hth).
+  set (E := mag (rdx B HB) t - 1).
+  assert (HtL : (bp E <= Rabs t)%R) by (rewrite (bpw_bpow B HB); unfold E; apply bpow_mag_le; exact Ht).
+  assert (HtU : (Rabs t < bp (E + 1))%R).
+  { rewrite (bpw_bpow B HB). unfold E. replace (mag (rdx B HB) t - 1 + 1) with (mag (rdx B HB) t : Z) by lia. apply bpow_mag_gt. }
+  exists E. split; [exact HtL|]. apply final_round; try assumption.
+  rewrite Ev. replace (t * th - t)%R with (t * (th - 1))%R by ring. rewrite Rabs_mult.
+  assert (Hulp : (bp (E + 1) = bp (E - p + 1) * IZR (B ^ p))%R).
+  { rewrite (IZR_Bpow B p) by lia. rewrite <- (bpw_add B HB). f_equal. lia. }
+  set (ulp := bp (E - p + 1)) in *. assert (0 < ulp)%R by apply (bpw_pos B HB).
+  assert (HBp : (1 <= IZR (B ^ p))%R) by (apply IZR_le; pose proof (Z.pow_pos_nonneg B p); lia).
+  pose proof (Rabs_pos (th - 1)). assert (0 < Rabs t)%R by (apply Rabs_pos_lt; exact Ht).
+  destruct (Req_dec (Rabs (th - 1)) 0) as [Z0|NZ]; [rewrite Z0; lra|].
+  assert (Rabs t * Rabs (th - 1) < ulp * IZR (B ^ p) * Rabs (th - 1))%R by (apply Rmult_lt_compat_r; lra).
+  assert (ulp * IZR (B ^ p) * Rabs (th - 1) <= ulp * IZR (B ^ p) * d)%R by (apply Rmult_le_compat_l; nra).
+  assert (ulp * IZR (B ^ p) * d <= ulp / 2)%R by nra. lra.
+Qed.
+
+(** Context::repr_div(1, v) in a nearest mode: one rounding of the exact inverse *)
+Lemma c_repr_div_one_rel rp m sv ev : 1 <= rp -> sv <> 0 -> is_half_mode m = true ->
+  exists a, c_repr_div B rp m 1 0 sv ev = Ok a /\
+    exists th : R, aval B a = (/ fval B sv ev * th)%R /\ (Rabs (th - 1) * IZR (2 * B ^ (rp - 1)) <= 1)%R /\
+                   (is_exact a = true -> th = 1%R).
+Proof.
+  intros Hrp Hsv Hm. unfold c_repr_div.
+  pose proof (repr_div_spec B HB rp m 1 0 sv ev Hrp Hsv) as H. cbv zeta in H.
+  destruct H as (Hk & a & Ea & Eexp & Esig & Hmatch). set (k := repr_div_shift B rp 1 sv) in *.
+  rewrite Ea. cbn [rbind]. eexists. split; [reflexivity|]. rewrite aval_nrm, is_exact_nrm by assumption.
+  assert (Hpk : 0 < B ^ k) by (apply Z.pow_pos_nonneg; lia).
+  set (D := Z.abs sv) in *. assert (HD : 0 < D) by (unfold D; lia).
+  set (N := Z.sgn sv * (1 * B ^ k)) in *. set (q := approx_sig a) in *.
+  assert (HN : Z.abs N = B ^ k).
+  { unfold N. rewrite Z.mul_1_l. destruct (Z.lt_trichotomy sv 0) as [L|[L|L]];
+      [rewrite Z.sgn_neg by lia | lia | rewrite Z.sgn_pos by lia]; lia. }
+  assert (HNsv : N * sv = B ^ k * D).
+  { unfold N, D. rewrite Z.mul_1_l. destruct (Z.lt_trichotomy sv 0) as [L|[L|L]]; [|lia|].
+    - rewrite Z.sgn_neg, Z.abs_neq by lia. ring.
+    - rewrite Z.sgn_pos, Z.abs_eq by lia. ring. }
+  destruct (spec_round_error m N D HD) as [_ Hh]. specialize (Hh Hm). cbv zeta in Hh. rewrite <- Esig in Hh. fold q in Hh.
+  (* magnitude: B^(rp-1) * D <= B^k, or D = 1 and the quotient is exact *)
+  assert (Hmag : 2 * B ^ (rp - 1) * Z.abs (q * D - N) <= B ^ k).
+  { destruct (Z.eq_dec D 1) as [D1|D1].
+    - assert (q * D = N).
+      { rewrite Esig. apply spec_round_exact; [lia|]. rewrite D1. apply Z.mod_1_r. }
+      rewrite H, Z.sub_diag. cbn [Z.abs]. lia.
+    - assert (Hrem : Z.rem 1 sv <> 0).
+      { destruct (Z.lt_trichotomy sv 0) as [L|[L|L]]; [|lia|].
+        - replace sv with (- (- sv)) by lia. rewrite Z.rem_opp_r by lia. rewrite Z.rem_small by (unfold D in *; lia). lia.
+        - rewrite Z.rem_small by (unfold D in *; lia). lia. }
+      destruct (repr_div_magnitude B HB rp 1 sv Hrp Hsv Hrem) as [M _]. fold k D in M.
+      change (Z.abs 1) with 1 in M. rewrite Z.mul_1_l in M.
+      assert (0 < B ^ (rp - 1)) by (apply Z.pow_pos_nonneg; lia).
+      assert (B ^ (rp - 1) * (2 * Z.abs (q * D - N)) <= B ^ (rp - 1) * D) by (apply Z.mul_le_mono_nonneg_l; lia). lia. }
+  (* theta = q * D / N *)
+  assert (HNr : IZR N <> 0%R) by (apply not_0_IZR; lia).
+  assert (Hsr : IZR sv <> 0%R) by (apply not_0_IZR; assumption).
+  exists (IZR (q * D) / IZR N)%R. split; [|split].
+  - unfold aval. fold q. rewrite Eexp. rewrite !(fval_bpw B).
+    replace (0 - ev - k) with (- ev + - k) by lia. rewrite (bpw_add B HB), !(bpw_neg B HB).
+    rewrite <- (IZR_Bpow B k Hk).
+    assert (Hbe : (bp ev <> 0)%R) by (pose proof (bpw_pos B HB ev); lra).
+    assert (Hbk : IZR (B ^ k) <> 0%R) by (apply not_0_IZR; lia).
+    assert (E2 : (IZR N * IZR sv = IZR (B ^ k) * IZR D)%R) by (rewrite <- !mult_IZR; f_equal; exact HNsv).
+    assert (ED : IZR D = (IZR N * IZR sv / IZR (B ^ k))%R) by (rewrite E2; field; assumption).
+    rewrite mult_IZR, ED. field. repeat split; assumption.
+  - replace (IZR (q * D) / IZR N - 1)%R with (IZR (q * D - N) / IZR N)%R by (rewrite minus_IZR; field; assumption).
+    unfold Rdiv. rewrite Rabs_mult, Rabs_inv, <- !abs_IZR, HN.
+    apply IZR_le in Hmag. rewrite !mult_IZR in Hmag. rewrite mult_IZR.
+    assert (Hkp : (0 < IZR (B ^ k))%R) by (apply IZR_lt; lia).
+    apply (Rmult_le_reg_r (IZR (B ^ k))); [assumption|].
+    replace (IZR (Z.abs (q * D - N)) * / IZR (B ^ k) * (2 * IZR (B ^ (rp - 1))) * IZR (B ^ k))%R
+      with (2 * IZR (B ^ (rp - 1)) * IZR (Z.abs (q * D - N)))%R by (field; lra).
+    lra.
+  - intros Hx. destruct a as [qa ea|qa ea ra]; [|discriminate]. cbn [approx_sig] in q. subst q.
+    (* qa * sv = 1 * B^k *)
+    assert (qa * D = N).
+    { unfold N, D. rewrite Z.mul_1_l in *. destruct (Z.lt_trichotomy sv 0) as [L|[L|L]]; [|lia|].
+      - rewrite Z.sgn_neg, Z.abs_neq by lia. lia.
+      - rewrite Z.sgn_pos, Z.abs_eq by lia. lia. }
+    rewrite H. field. assumption.
+Qed.
+
+Lemma with_precision_exact_val wp p m s e : is_exact (with_precision B wp p m s e) = true ->
+  aval B (with_precision B wp p m s e) = fval B s e.
+Proof.
+  unfold with_precision. destruct ((wp =? 0) || (wp >? p)); [apply c_repr_round_exact_val; assumption | reflexivity].
+Qed.
+
+(** the positive power at the enlarged precision rp of the negative-exponent path *)
+Lemma powi_pos_RD rp m s e N : 3 <= rp -> 1 <= N -> s <> 0 -> is_half_mode m = true ->
+  dlen B s <= 2 * powi_work_precision rp N ->
+  RD (17 / 8 * / IZR (2 * B ^ (rp - 1))) (fval B s e ^ Z.to_nat N) (aval B (powi_pos B rp m s e N)).
+Proof.
+  intros Hrp HN Hs Hm Hd. set (w := (/ IZR (2 * B ^ (rp - 1)))%R).
+  assert (Hw8 : (0 < w <= / 8)%R).
+  { unfold w. assert (4 <= B ^ (rp - 1)).
+    { change 4 with (2 ^ 2). transitivity (2 ^ (rp - 1)); [apply Z.pow_le_mono_r; lia | apply Z.pow_le_mono_l; lia]. }
+    assert (8 <= IZR (2 * B ^ (rp - 1)))%R by (apply IZR_le; lia).
+    split; [apply Rinv_0_lt_compat; lra | apply Rinv_le_contravar; lra]. }
+  unfold powi_pos. destruct (Z.eqb_spec N 0); [lia|].
+  destruct (Z.eqb_spec N 1) as [->|N1].
+  - destruct (repr_round_rel B HB rp m s e ltac:(lia) Hm) as (th & E & Hth).
+    exists th. unfold c_repr_round. rewrite aval_nrm, E by assumption. change (Z.to_nat 1) with 1%nat. split; [cbn [pow]; ring|].
+    fold w. assert (Rabs (th - 1) <= w)%R.
+    { unfold w. apply (rel_to_u B HB rp ltac:(lia)). exact Hth. }
+    lra.
+  - set (wp := powi_work_precision rp N) in *.
+    assert (Hg : rp + bit_len N + bit_len rp = wp).
+    { unfold wp, powi_work_precision, powi_guard_digits_gen. destruct (Z.eqb_spec rp 0); lia. }
+    destruct (bit_len_bounds N ltac:(lia)) as (LN1 & UN & _). destruct (bit_len_bounds rp ltac:(lia)) as (Lr1 & Ur & _).
+    assert (Lr2 : 2 <= bit_len rp).
+    { destruct (Z_lt_le_dec (bit_len rp) 2); [|assumption]. exfalso. assert (bit_len rp = 1) by lia. rewrite H in Ur. simpl in Ur. lia. }
+    assert (Hwp : 1 <= wp) by lia.
+    pose proof (powi_loop_result B HB wp Hwp m s e Hd N ltac:(lia)) as (_ & _ & Rel). specialize (Rel Hm).
+    set (res := powi_loop B wp m s e N (Z.to_nat (bit_len N - 2)) (c_sqr B wp m s e)) in *.
+    rewrite aval_and_then, with_precision_round by lia.
+    destruct (u_bounds B HB wp Hwp) as [u0 u1]. set (u := (/ IZR (2 * B ^ (wp - 1)))%R) in *.
+    set (c := Z.to_nat (2 * N - 3)) in *.
+    assert (Hc : INR c = IZR (2 * N - 3)) by (unfold c; rewrite INR_IZR_INZ, Z2Nat.id by lia; reflexivity).
+    (* c u <= w / 2 *)
+    assert (Hcu : (INR c * u <= w / 2)%R).
+    { rewrite Hc. unfold u, w.
+      assert (Hz : (2 * N - 3) * (4 * B ^ (rp - 1)) <= 2 * B ^ (wp - 1)).
+      { replace (wp - 1) with ((rp - 1) + bit_len N + bit_len rp) by lia. rewrite !Z.pow_add_r by lia.
+        assert (0 < B ^ (rp - 1)) by (apply Z.pow_pos_nonneg; lia).
+        assert (2 ^ bit_len N <= B ^ bit_len N) by (apply Z.pow_le_mono_l; lia).
+        assert (4 <= B ^ bit_len rp).
+        { change 4 with (2 ^ 2). transitivity (2 ^ bit_len rp); [apply Z.pow_le_mono_r; lia | apply Z.pow_le_mono_l; lia]. }
+        assert (2 * (2 * N - 3) <= B ^ bit_len N * B ^ bit_len rp) by nia.
+        assert (B ^ (rp - 1) * (2 * (2 * N - 3)) <= B ^ (rp - 1) * (B ^ bit_len N * B ^ bit_len rp)) by (apply Z.mul_le_mono_nonneg_l; lia).
+        lia. }
+      apply IZR_le in Hz. rewrite !mult_IZR in Hz. rewrite !mult_IZR.
+      assert (0 < IZR (B ^ (rp - 1)))%R by (apply IZR_lt, Z.pow_pos_nonneg; lia).
+      assert (0 < IZR (B ^ (wp - 1)))%R by (apply IZR_lt, Z.pow_pos_nonneg; lia).
+      apply (Rmult_le_reg_r (2 * IZR (B ^ (wp - 1)))); [lra|].
+      replace (IZR (2 * N - 3) * / (2 * IZR (B ^ (wp - 1))) * (2 * IZR (B ^ (wp - 1))))%R with (IZR (2 * N - 3)) by (field; lra).
+      apply (Rmult_le_reg_r (4 * IZR (B ^ (rp - 1)))); [lra|].
+      replace (/ (2 * IZR (B ^ (rp - 1))) / 2 * (2 * IZR (B ^ (wp - 1))) * (4 * IZR (B ^ (rp - 1))))%R
+        with (2 * IZR (B ^ (wp - 1)))%R by (field; lra).
+      lra. }
+    assert (Hc0 : (0 <= INR c * u)%R) by (pose proof (pos_INR c); nra).
+    assert (Hlt : (INR c * u < 1)%R) by lra.
+    pose proof (RA_to_RD u c _ _ u0 u1 Hlt Rel) as RD1.
+    assert (Ha : (INR c * u / (1 - INR c * u) <= w)%R).
+    { apply (Rmult_le_reg_r (1 - INR c * u)); [lra|]. unfold Rdiv. rewrite Rmult_assoc, Rinv_l by lra. nra. }
+    apply (RD_weaken _ w) in RD1; [|exact Ha].
+    destruct (repr_round_rel B HB rp m (approx_sig res) (approx_exp res) ltac:(lia) Hm) as (th & E & Hth).
+    assert (Hthw : (Rabs (th - 1) <= w)%R) by (apply (rel_to_u B HB rp ltac:(lia)); exact Hth).
+    unfold c_repr_round. rewrite aval_nrm, E by assumption. fold (aval B res).
+    apply (RD_weaken (w + w + w * w)); [nra|]. apply RD_step; [lra | exact RD1 | exact Hthw].
+Qed.
+
+Lemma powi_pos_exact_val rp m s e N : 1 <= rp -> 1 <= N -> dlen B s <= 2 * powi_work_precision rp N ->
+  is_exact (powi_pos B rp m s e N) = true -> aval B (powi_pos B rp m s e N) = (fval B s e ^ Z.to_nat N)%R.
+Proof.
+  intros. rewrite pow_Z_powerRZ by lia. apply powi_pos_exact_flag; try assumption; lia.
+Qed.
+
+(** Context::powi with a NEGATIVE exponent, nearest modes, p >= 2 or B >= 5: within one ulp of
+    x^n = 1 / x^|n|, Exact only if exact *)
+Theorem powi_asis_neg_nearest p m s e n : 1 <= p -> n < 0 -> s <> 0 -> is_half_mode m = true ->
+  2 <= p \/ 5 <= B ->
+  dlen B s <= 2 * powi_work_precision (p + powi_neg_guard_bits_gen no_f32 p) (- n) ->
+  exists a, powi_asis B p m s e n = Ok a /\
+    Accepted B p (powerRZ (fval B s e) n) (aval B a) (is_exact a).
+Proof.
+  intros Hp Hn Hs Hm Hcase Hd. unfold powi_asis. destruct (Z.ltb_spec n 0); [|lia].
+  destruct (Z.eqb_spec p 0); [lia|]. rewrite (reverse_mode_half m Hm).
+  set (rp := p + powi_neg_guard_bits_gen no_f32 p) in *.
+  destruct (bit_len_bounds p Hp) as (Lp1 & Up & _).
+  assert (Hrp : rp = p + 2 * bit_len p) by (unfold rp, powi_neg_guard_bits_gen; lia).
+  assert (Hrp3 : 3 <= rp) by lia.
+  set (N := - n) in *. assert (HN : 1 <= N) by (unfold N; lia).
+  set (X := fval B s e). assert (HX : X <> 0%R) by (apply (fval_neq0 B HB); assumption).
+  assert (Ht : powerRZ X n = (/ X ^ Z.to_nat N)%R).
+  { replace n with (- N) by (unfold N; lia). rewrite powerRZ_neg', <- pow_Z_powerRZ by lia. reflexivity. }
+  rewrite Ht. set (T := (X ^ Z.to_nat N)%R). assert (HT : T <> 0%R) by (apply pow_nonzero; exact HX).
+  set (w := (/ IZR (2 * B ^ (rp - 1)))%R).
+  assert (HB4 : 4 <= B ^ (rp - 1)).
+  { change 4 with (2 ^ 2). transitivity (2 ^ (rp - 1)); [apply Z.pow_le_mono_r; lia | apply Z.pow_le_mono_l; lia]. }
+  assert (Hw8 : (0 < w <= / 8)%R).
+  { unfold w. assert (8 <= IZR (2 * B ^ (rp - 1)))%R by (apply IZR_le; lia).
+    split; [apply Rinv_0_lt_compat; lra | apply Rinv_le_contravar; lra]. }
+  pose proof (powi_pos_RD rp m s e N Hrp3 HN Hs Hm Hd) as RDp. fold w X T in RDp.
+  pose proof (powi_pos_exact_val rp m s e N ltac:(lia) HN Hd) as Exp. fold X T in Exp.
+  set (pow := powi_pos B rp m s e N) in *.
+  (* the power is not zero *)
+  assert (Hpv : aval B pow <> 0%R).
+  { destruct RDp as (th & E & Hth). rewrite E. apply Rabs_le_inv in Hth.
+    apply Rmult_integral_contrapositive_currified; [exact HT | lra]. }
+  assert (Hps : approx_sig pow <> 0).
+  { intros Z0. apply Hpv. unfold aval. rewrite Z0. apply fval_0. }
+  destruct (c_repr_div_one_rel rp m (approx_sig pow) (approx_exp pow) ltac:(lia) Hps Hm) as (inv & Einv & th & Ev & Hth & Hex).
+  fold (aval B pow) in Ev.
+  assert (Einv' : approx_and_then_r pow (fun s' e' => c_repr_div B rp m 1 0 s' e') =
+                  Ok (match pow with AExact _ _ => inv | AInexact _ _ r => match inv with AExact s' e' => AInexact s' e' r | b => b end end)).
+  { destruct pow as [ps pe|ps pe pr]; cbn [approx_and_then_r approx_sig approx_exp] in *; rewrite Einv; reflexivity. }
+  rewrite Einv'. cbn [rbind]. eexists. split; [reflexivity|].
+  set (inv' := match pow with AExact _ _ => inv | AInexact _ _ r => match inv with AExact s' e' => AInexact s' e' r | b => b end end).
+  assert (Hval' : aval B inv' = aval B inv) by (unfold inv'; destruct pow; destruct inv; reflexivity).
+  assert (Hsig' : approx_sig inv' = approx_sig inv /\ approx_exp inv' = approx_exp inv) by (unfold inv'; destruct pow; destruct inv; split; reflexivity).
+  assert (Hex' : is_exact inv' = is_exact pow && is_exact inv) by (unfold inv'; destruct pow; destruct inv; reflexivity).
+  (* relative error of the rounded inverse *)
+  assert (Hthw : (Rabs (th - 1) <= w)%R) by (apply (rel_to_u B HB rp ltac:(lia)); exact Hth).
+  assert (RDi : RD (200 / 47 * w) (/ T) (aval B inv)).
+  { rewrite Ev. apply (RD_weaken (136 / 47 * w + w + 136 / 47 * w * w)); [nra|].
+    apply RD_step; [lra | | exact Hthw].
+    apply (RD_weaken ((17 / 8 * w) / (1 - 17 / 8 * w))).
+    { apply (Rmult_le_reg_r (1 - 17 / 8 * w)); [lra|]. unfold Rdiv at 1. rewrite Rmult_assoc, Rinv_l by lra. nra. }
+    apply RD_inv; [lra | lra | exact HT | exact RDp]. }
+  split.
+  - (* within one ulp *)
+    right. rewrite aval_and_then. destruct Hsig' as [-> ->].
+    assert (Hti : (/ T <> 0)%R) by (apply Rinv_neq_0_compat; exact HT).
+    apply (RD_final p m _ _ (/ T) (200 / 47 * w) Hp Hm Hti); [lra | | exact RDi].
+    (* 2 * (200/47) w * B^p <= 1 : (200/47) B^p <= B^(rp-1) *)
+    unfold w.
+    assert (Hz : 5 * B ^ p <= B ^ (rp - 1)).
+    { destruct Hcase as [P2|B5].
+      - assert (2 <= bit_len p).
+        { destruct (Z_lt_le_dec (bit_len p) 2); [|assumption]. exfalso. assert (Hb1 : bit_len p = 1) by lia. rewrite Hb1 in Up. simpl in Up. lia. }
+        replace (rp - 1) with (p + (2 * bit_len p - 1)) by lia. rewrite Z.pow_add_r by lia.
+        assert (8 <= B ^ (2 * bit_len p - 1)).
+        { change 8 with (2 ^ 3). transitivity (2 ^ (2 * bit_len p - 1)); [apply Z.pow_le_mono_r; lia | apply Z.pow_le_mono_l; lia]. }
+        assert (0 < B ^ p) by (apply Z.pow_pos_nonneg; lia). nia.
+      - replace (rp - 1) with (p + (2 * bit_len p - 1)) by lia. rewrite Z.pow_add_r by lia.
+        assert (B <= B ^ (2 * bit_len p - 1)).
+        { rewrite <- (Z.pow_1_r B) at 1. apply Z.pow_le_mono_r; lia. }
+        assert (0 < B ^ p) by (apply Z.pow_pos_nonneg; lia). nia. }
+    apply IZR_le in Hz. rewrite mult_IZR in Hz. rewrite mult_IZR.
+    assert (0 < IZR (B ^ (rp - 1)))%R by (apply IZR_lt; lia).
+    assert (0 < IZR (B ^ p))%R by (apply IZR_lt, Z.pow_pos_nonneg; lia).
+    apply (Rmult_le_reg_r (2 * IZR (B ^ (rp - 1)))); [lra|].
+    replace (2 * (200 / 47 * / (2 * IZR (B ^ (rp - 1)))) * IZR (B ^ p) * (2 * IZR (B ^ (rp - 1))))%R
+      with (400 / 47 * IZR (B ^ p))%R by (field; lra).
+    lra.
+  - (* Exact only if exact *)
+    rewrite exact_and_then, aval_and_then. destruct Hsig' as [-> ->]. intros Hx. apply andb_prop in Hx. destruct Hx as [H1 H2].
+    rewrite Hex' in H1. apply andb_prop in H1. destruct H1 as [Hp1 Hi1].
+    rewrite (c_repr_round_exact_val B HB _ _ _ _ H2). fold (aval B inv). rewrite Ev, (Hex Hi1), (Exp Hp1). ring.
+Qed.
+
+End Neg.
+
+(** EVERY integer exponent: Context::powi in the nearest modes, for p >= 4 or B >= 5 and an operand of
+    at most 2 p digits, is within one ulp of x^n and flags Exact only an exact result *)
+Theorem powi_asis_nearest_every_exponent B : 2 <= B -> forall p m s e n,
+  1 <= p -> s <> 0 -> is_half_mode m = true -> 4 <= p \/ 5 <= B -> dlen B s <= 2 * p ->
+  exists a, powi_asis B p m s e n = Ok a /\
+    Accepted B p (powerRZ (fval B s e) n) (aval B a) (is_exact a).
+Proof.
+  intros HB p m s e n Hp Hs Hm Hc Hd.
+  assert (Hwp : forall q k, 1 <= q -> 1 <= k -> q <= powi_work_precision q k).
+  { intros q k Hq Hk. unfold powi_work_precision, powi_guard_digits_gen. destruct (Z.eqb_spec q 0); [lia|].
+    pose proof (bit_len_nonneg k). pose proof (bit_len_nonneg q). lia. }
+  destruct (Z.lt_trichotomy n 0) as [N|[->|P]].
+  - apply powi_asis_neg_nearest; try assumption; [lia|].
+    pose proof (bit_len_nonneg p).
+    specialize (Hwp (p + powi_neg_guard_bits_gen no_f32 p) (- n)). unfold powi_neg_guard_bits_gen in *. lia.
+  - exists (AExact 1 0). split; [reflexivity|]. split.
+    + left. unfold aval. cbn [approx_sig approx_exp powerRZ]. apply fval_1_0.
+    + intros _. unfold aval. cbn [approx_sig approx_exp powerRZ]. apply fval_1_0.
+  - destruct (Z.eq_dec n 1) as [->|N1].
+    + unfold powi_asis, powi_pos. cbn [Z.ltb Z.compare Z.eqb]. eexists. split; [reflexivity|].
+      rewrite powerRZ_1. assert (HX : fval B s e <> 0%R) by (apply (fval_neq0 B HB); assumption). split.
+      * right. apply (RD_final B HB p m s e (fval B s e) 0 Hp Hm HX); [lra | lra |].
+        exists 1%R. split; [ring|]. replace (1 - 1)%R with 0%R by ring. rewrite Rabs_R0. lra.
+      * apply c_repr_round_exact_val; assumption.
+    + apply powi_asis_nearest; try assumption; try lia.
+      specialize (Hwp p n). lia.
+Qed.
+
+(** non-vacuity: the documented example of exp.rs, (-1.234)^10 at 3 digits *)
+Example powi_asis_nearest_example :
+  exists a, powi_asis 10 3 MHalfEven (-1234) (-3) 10 = Ok a /\
+    Accepted 10 3 (powerRZ (fval 10 (-1234) (-3)) 10) (aval 10 a) (is_exact a).
+Proof.
+  apply (powi_asis_nearest 10 ltac:(lia) 3 MHalfEven (-1234) (-3) 10); try lia; [reflexivity|].
+  vm_compute. discriminate.
+Qed.
+
+Example powi_asis_neg_example :
+  exists a, powi_asis 10 2 MHalfAway 2001 (-3) (-7) = Ok a /\
+    Accepted 10 2 (powerRZ (fval 10 2001 (-3)) (-7)) (aval 10 a) (is_exact a).
+Proof.
+  apply (powi_asis_neg_nearest 10 ltac:(lia) 2 MHalfAway 2001 (-3) (-7)); try lia; [reflexivity|].
+  vm_compute. discriminate.
+Qed.
